@@ -195,7 +195,54 @@ def cross_matrix(ctx, o_x, first_only=False):
         ("bcrypt", lambda r: BcryptHasher(rounds=r), bcrypt, [4, 5], lambda: None),
         ("bcrypt-sha256", lambda r: BcryptSHA256Hasher(rounds=r), bcrypt_sha256, [4, 5], lambda: None),
     ]
-    lp_all = {name: mk(rs[0]) for name, mk, _, rs, _ in pairs}
+    lp_all = {}
+    for name, mk, cl, rs, _ in pairs:
+        try:
+            lp_all[name] = mk(rs[0])
+        except Exception as e:  # noqa: BLE001
+            chk(name + ":boundary-cost", False, {"op": "boundary-cost", "format": name, "rounds": rs[0]}, errname(e) + ": " + str(e)[:80], "a hasher for every cost passlib accepts")
+            if first_only:
+                return fails
+            lp_all[name] = mk(rs[0] + 1)
+    # ---- the corners of the shared domain: every cost passlib accepts at the boundary, every bcrypt ident passlib writes, salts libpass draws itself
+    for name, mk, cl, rs, _mksalt in pairs:
+        lo, hi = cl.min_rounds, cl.max_rounds
+        for r in (lo, lo + 1, hi):
+            inp = {"op": "boundary-cost", "format": name, "rounds": r}
+            try:
+                lp = mk(r)
+                obs = "constructed"
+                if r <= lo + 1 and not name.startswith("bcrypt"):
+                    hs = lp.hash(b"pw")
+                    obs = (cl.verify(b"pw", hs), lp.verify(hs, b"pw"), lp.needs_update(hs))
+                    chk(name + ":boundary-cost", obs == (True, True, False), inp, obs, (True, True, False))
+                    continue
+            except Exception as e:  # noqa: BLE001
+                obs = errname(e) + ": " + str(e)[:80]
+            chk(name + ":boundary-cost", obs == "constructed", inp, obs, "a hasher for every cost passlib accepts")
+        for _ in range(6 if not ctx.thorough else 60):
+            # no explicit salt: libpass draws it; the result must be a string passlib reads
+            r = rs[0]
+            lp = mk(r)
+            secret = rand_secret(rng).replace(b"\x00", b"\x01")[:60]
+            inp = {"op": "own-salt", "format": name, "secret": secret.hex(), "rounds": r}
+            try:
+                hs = lp.hash(secret)
+                obs = (cl.identify(hs), cl.verify(secret, hs), lp.verify(hs, secret))
+            except Exception as e:  # noqa: BLE001
+                obs = errname(e) + ": " + str(e)[:80]
+            chk(name + ":libpass-drawn-salt", obs == (True, True, True), dict(inp, hash=locals().get("hs")), obs, (True, True, True))
+    for ident in ("2a", "2b", "2y"):
+        for cname, cl, lpn in (("bcrypt", bcrypt, "bcrypt"),):
+            secret = rand_secret(rng).replace(b"\x00", b"\x01")[:50]
+            ph = cl.using(rounds=4, ident=ident).hash(secret)
+            lp = lp_all[lpn]
+            inp = {"op": "passlib-ident", "format": cname, "ident": ident, "secret": secret.hex(), "hash": ph}
+            try:
+                obs = (lp.identify(ph), lp.verify(ph, secret), lp.verify(ph, secret + b"x"), LpContext([lp]).verify(secret, ph))
+            except Exception as e:  # noqa: BLE001
+                obs = errname(e) + ": " + str(e)[:80]
+            chk(cname + ":every-passlib-ident", obs == (True, True, False, True), inp, obs, (True, True, False, True))
     for name, mk, cl, rs, mksalt in pairs:
         for _ in range(4 if not ctx.thorough else 40):
             r = rng.choice(rs)
